@@ -215,8 +215,13 @@ func C05(c *Ctx) {
 	p.W[gast.AndCode] = 8
 	p.W[gast.NotCode] = 5
 	p.StateSpec = func(r *rand.Rand) mon.Spec { return mon.Spec{S: 1 + r.Intn(31), G: r.Intn(2) == 0} }
+	nKept := 0
+	strata := append(c05Strata(), rollbackStrata()...)
+	for i, g := range strata {
+		g.IndirectState = i%2 == 1
+	}
 	cfg := &MCConfig{
-		Profile: p, Grammars: append(c05Strata(), rollbackStrata()...), NGrammars: c.N(110, 1500),
+		Profile: p, Grammars: strata, NGrammars: c.N(110, 1500),
 		FlagSets:  [][]string{{}, {"-optimize-parser"}},
 		InputsPer: c.N(90, 200), ExhaustLimit: c.N(150, 800), ExhaustLen: 6,
 		OptSets: []OptSet{{Name: "default"}, {Name: "initstate=4", Init: 4}, {Name: "initstate=8", Init: 8}},
@@ -224,8 +229,13 @@ func C05(c *Ctx) {
 		NonTrivial: func(m *ref.Result) bool {
 			return m.Backtracks >= 1 && len(m.Trace) >= 3 && m.KindsEval[gast.StateCode] >= 1
 		},
-		StalePS:     "F02-stale-pred-pos",
-		KeepGrammar: func(g *gast.Grammar) bool { g.Finalize(); return g.UsesState },
+		StalePS: "F02-stale-pred-pos",
+		KeepGrammar: func(g *gast.Grammar) bool {
+			g.Finalize()
+			nKept++
+			g.IndirectState = nKept%3 == 0 // every third grammar reaches c.state through a helper function
+			return g.UsesState
+		},
 	}
 	c.runKnownF22()
 	c.ModelCheck(cfg)
